@@ -105,7 +105,7 @@ static Elem *mk_pos (struct svb *s)
 {
   unsigned long k = nondet_ulong ();
   __CPROVER_assume (k <= SZ (s));
-  return DATA (s) + k;
+  return k == 0 ? DATA (s) : DATA (s) + k;      /* data () may be null when the inline capacity is 0 */
 }
 
 /* the caller's forward iterator at a position */
